@@ -27,6 +27,14 @@ Theorems (all for every program of the stated fragment, every analyzer state; no
                       tree = those of `Spec.table`, when nested functions' parameters do not leak harmfully
   C08_classes_nested  parameters, bound locals, declared globals/nonlocals of *every* function definition nested in
                       statement position anywhere in the tree = those of its block in `Spec.table`
+  C08_frees_nested    for *every* function definition at *every* nesting depth (through functions, lambdas, class
+                      bodies): the names it passes to its enclosing scope according to the analysis (`read − bound`
+                      plus declared nonlocals, minus declared globals) = `Spec.outerB` of its block = the names CPython
+                      resolves outside it; the free variables CPython gives it are the visible ones among them, the rest
+                      are implicit globals.  Hypotheses: the decidable predicates of the deviation classes are empty.
+  C08_spec_free       (specification only) free variables of any block of any tree = `outerB` ∩ visible names
+  C08_reads_resolve   the statement-level lemma behind `C08_frees_nested` (class bodies and lambdas included)
+  C08_classes_all     `C08_classes_nested` and `C08_frees_nested` together: all five categories, every def, every depth
   C08_compositional_comp, C08_dynamic_comp(_lookup)   the first three for the larger fragments `FragSC` / `FragSD`,
                       which include comprehensions of all kinds (without named expressions inside, for the
                       dynamic theorem)
@@ -562,6 +570,55 @@ theorem C08_frees_nested (i : Nat) (name : String) (ai : Nat) (po ar va ko kd kw
     | _ => simp [FragS] at hdf
   | _ => trivial
 
+/-- The two halves of `FreesMatch` combined: CPython's free variables of `d` are the names the analysis has `d`
+    pass outwards that are visible from the enclosing functions. -/
+theorem FreesMatch.frees_iff {st : St} {root : Block} {tab : List BlockInfo}
+    {i : Nat} {name : String} {ai : Nat} {po ar va ko kd kw df : List Expr} {body : List Stmt} {decos returns : List Expr} {isAsync : Bool}
+    (h : FreesMatch st root tab (.functionDef i name (.arguments ai po ar va ko kd kw df) body decos returns isAsync)) :
+    ∃ cI info B, st.anno? i .argsAndBodyScope = some cI ∧ info ∈ tab ∧ info.id = i ∧
+      (mkDefBlock (.functionDef i name (.arguments ai po ar va ko kd kw df) body decos returns isAsync), B) ∈ ctxBlocks [] root ∧
+      ∀ x, x ∈ info.frees ↔ ((x ∈ cI.freeVars.names ∨ x ∈ cI.nonlocals.names) ∧ x ∉ cI.globals.names) ∧ x ∈ B := by
+  obtain ⟨cI, info, B, h1, h2, h3, h4, h5, h6⟩ := h
+  exact ⟨cI, info, B, h1, h2, h3, h4, fun x => by rw [h6 x, h5 x]⟩
+
+/-- **Specification only: the free variables of any block, at any depth** (functions, lambdas, class bodies,
+    comprehension blocks without named expressions): what `analyzeBlock` returns as needed from the enclosing
+    blocks is `outerB` cut down to the visible names. -/
+theorem C08_spec_free (b : Block) (parent : Nat) (B eg : List String)
+    (hw : ∀ b' ∈ allBlocks b, b'.walrus = []) (hv : nlOkB B b = true) :
+    ∀ x, x ∈ (analyzeBlock b parent B eg).2 ↔ x ∈ outerB b ∧ x ∈ B :=
+  analyzeBlock_free b parent B B eg hw (fun _ => Iff.rfl) hv
+
+/-- **The statement-level fact behind `C08_frees_nested`** (any statement of the fragment: compound statements,
+    class definitions with their bodies, function definitions, lambdas in any expression position).  Outside `Dom`
+    — the names the current block declares — the names the statement adds to the `read` set of the current scope
+    are the names the specification collects as used in the current block or as needed (`outerB`) by the blocks
+    nested in the statement.  `Hyp`: the deviation-class predicates are empty on the blocks collected so far. -/
+theorem C08_reads_resolve (s : Stmt) (hf : FragS s = true) (hs : SpecOkS s = true) (fns : List FnCtx)
+    (Dom Denc Lenc : List String) (a : Acc) (H : Hyp Dom Denc Lenc (collectS s a)) :
+    ∀ x, x ∉ Dom → ((QN.sym x ∈ (effS fns s).read ∨ accNeeds a x) ↔ accNeeds (collectS s a) x) :=
+  readRelS s hf hs fns Dom Denc Lenc a H
+
+/-- **All five categories, every function definition, every depth.** -/
+theorem C08_classes_all (i : Nat) (name : String) (ai : Nat) (po ar va ko kd kw df : List Expr) (body : List Stmt)
+    (decos returns : List Expr) (t : Stmt)
+    (ht : t = .functionDef i name (.arguments ai po ar va ko kd kw df) body decos returns false)
+    (hf : FragS t = true) (hs : SpecOkS t = true) (hu' : uniqueAnnos (analyze t).annos = true)
+    (hleak : harmfulLeaks t = []) (hd : allDeclsDisjoint t = true)
+    (hshadow : classShadow t = []) (hgb : globalBelow t = []) (hnb : nonlocalBelow t = [])
+    (hnl : nonlocalsResolve t = true) :
+    ∀ d ∈ defsS t, DefMatches (analyze t) (Spec.table t) d ∧ FreesMatch (analyze t) (mkDefBlock t) (Spec.table t) d :=
+  fun d hd' => ⟨C08_classes_nested i name ai po ar va ko kd kw df body decos returns t ht hf hs hu' hleak hd d hd',
+    C08_frees_nested i name ai po ar va ko kd kw df body decos returns t ht hf hs hu' hleak hshadow hgb hnb hnl d hd'⟩
+
+/- Full statement `C08_frees` (not a theorem of the pinned tree): the same for every tree, i.e. without the four
+   class predicates.  Each of them is necessary: `leak_counterexample` (harmfulLeaks), `shadow_counterexample`
+   (classShadow) below; for `nonlocalBelow` / `globalBelow` see `known_findings.d/C08.json` (C08-nonlocal-passthrough,
+   C08-global-propagates) and their corpus witnesses.
+   Not proved: that `B` (CPython's visible names, `ctxBlocks`) is what `ActivityFn.resolveAct` computes from the
+   recorded scopes of the enclosing functions — the last step to `classify`'s `frees` field.  The harness checks that
+   step on the real code for every def on which the hypotheses hold (`consistency:C08_frees_nested-on-real-code`). -/
+
 /-! ### instances: the hypotheses are satisfiable, the exclusions are necessary -/
 
 /-- `def f(a): x = a; x += 1; (with a as y: del y); (def g(): return x); if x: return g`. -/
@@ -619,6 +676,25 @@ example : outerB (mkDefBlock deepTree) = ["G"] := by decide
 example : ((table deepTree).filter (fun b => b.id == 14 || b.id == 11 || b.id == 1)).map (fun b => (b.id, b.frees))
     = [(1, []), (11, ["x"]), (14, ["x"])] := by decide
 example : kind (table deepTree) 14 "G" = .globalImplicit ∧ kind (table deepTree) 11 "x" = .free := by decide
+
+/-- `def f(): x = 1; (def g(): (class K: x = 2; def m(): return x); return K); return g` — the class body binds
+    `x`, so the analysis drops `m`'s read of `x` at the class; Python threads `x` from `f` through `g` to `m`. -/
+def shadowTree : Stmt :=
+  .functionDef 1 "f" (.arguments 2 [] [] [] [] [] [] [])
+    [ .assign 3 [.name 4 "x" .store] (.const 5 "int" "1"),
+      .functionDef 6 "g" (.arguments 7 [] [] [] [] [] [] [])
+        [ .classDef 8 "K" [] []
+            [ .assign 9 [.name 10 "x" .store] (.const 11 "int" "2"),
+              .functionDef 12 "m" (.arguments 13 [] [] [] [] [] [] [])
+                [.ret 14 [.name 15 "x" .load]] [] [] false ] [],
+          .ret 16 [.name 17 "K" .load] ] [] [] false,
+      .ret 18 [.name 19 "g" .load] ] [] [] false
+
+theorem shadow_counterexample :
+    ((classify shadowTree (analyze shadowTree) 6 [1]).map fun c => c.frees) = some [] ∧
+    ((table shadowTree).filter (fun b => b.id == 6)).map (fun b => b.frees) = [["x"]] := by decide
+example : classShadow shadowTree = ["x"] ∧ harmfulLeaks shadowTree = [] ∧ globalBelow shadowTree = [] ∧
+    nonlocalBelow shadowTree = [] ∧ nonlocalsResolve shadowTree = true ∧ FragS shadowTree = true ∧ SpecOkS shadowTree = true := by decide
 
 /-- `def f(c): k = (lambda N: N)(1); return k + N` — the parameter `N` of the lambda leaks into `f`'s bound
     locals, although `N` is a global name in `f`. -/
